@@ -8,9 +8,10 @@ from .pipe import *
 from . import probe
 
 RULE = ("generated projects (subkeys, namespaces, ranges, plurals, foreign keys, components) compiled as probe crates; for every key x locale x 2-3 "
-        "argument assignments all flavours are printed: td_string!, td_display!, td! (to_html), t_string!, tu_string! via a context, chained "
+        "argument assignments all flavours are printed: td_string!, td_display!, td! (to_html), t_string!, tu_string!, t!, tu! via a context (views also built before the context's locale was set, rendered after), chained "
         "scope_locale!/scope_i18n! at a random split of the key path; non-trivial = the key takes arguments; distinct = distinct probe expression")
-FLAVOURS = ("string", "display", "view", "ctx_string", "ctxu_string", "scoped_string", "scoped_display", "ctx_scoped_string")
+FLAVOURS = ("string", "display", "view", "ctx_string", "ctxu_string", "scoped_string", "scoped_display", "ctx_scoped_string",
+            "ctx_view", "ctxu_view", "late_view", "lateu_view")
 
 
 def run(ctx):
